@@ -400,7 +400,10 @@ class Point(HyperbolicObject, projective.Point):
         products = utils.apply_bilinear(self_hyp, other_hyp,
                                         self.minkowski)
 
-        return np.arccosh(np.abs(products))
+        # the product of a unit timelike vector with itself can round to
+        # slightly less than 1 in modulus, which would make arccosh
+        # return nan for coincident points
+        return np.arccosh(np.maximum(np.abs(products), 1))
 
     def origin_to(self, force_oriented=True):
         """Get an isometry taking an "origin" point to this point
